@@ -246,7 +246,7 @@ fn c20_resp_fixed() {
 }
 
 // Rows: rectangular result sets (precondition: every row has columns.len() values; ragged rows are not a valid Response)
-// @obl harness=c20_resp_rows_2x1 id=C20.resp_roundtrip[Rows/2cols,1row] tier=off funcs="Response::to_bytes,Response::from_bytes,read_string_with_len,write_string" bounds="2 columns (names of 1 and 0 bytes), 1 row (values of 2 and 1 bytes)" stubs="std::fmt::format,String::from_utf8_lossy" assume="rows are rectangular" unwind=4 reason="CBMC needs more than the 28 GB thorough limit (28 GB and rising after 300 s, run alone); the 1x1 Rows round trip and rows_encode_layout stay"
+// @obl harness=c20_resp_rows_2x1 id=C20.resp_roundtrip[Rows/2cols,1row] tier=off funcs="Response::to_bytes,Response::from_bytes,read_string_with_len,write_string" bounds="2 columns (names of 1 and 0 bytes), 1 row (values of 2 and 1 bytes)" stubs="std::fmt::format,String::from_utf8_lossy" assume="rows are rectangular" unwind=4 reason="CBMC needs more than the 28 GB thorough limit (28 GB and rising after 300 s, run alone); Rows round trips without data rows, rows_encode_layout[1col,1row | 2cols,1row] and decode_total[Response/Rows/*] stay"
 #[kani::proof]
 #[kani::unwind(4)]
 #[kani::stub(std::fmt::format, stub_format)]
@@ -275,7 +275,7 @@ fn c20_resp_rows_2x1() {
     assert!(ok, "resp_roundtrip_rows");
     std::mem::forget(r);
 }
-// @obl harness=c20_resp_rows_1x2 id=C20.resp_roundtrip[Rows/1col,2rows] tier=off funcs="Response::to_bytes,Response::from_bytes,read_string_with_len,write_string" bounds="1 column, 2 rows, values of 1 and 0 bytes" stubs="std::fmt::format,String::from_utf8_lossy" assume="rows are rectangular" unwind=4 reason="CBMC needs more than the 28 GB thorough limit (28 GB and rising after 300 s, run alone); the 1x1 Rows round trip and rows_encode_layout stay"
+// @obl harness=c20_resp_rows_1x2 id=C20.resp_roundtrip[Rows/1col,2rows] tier=off funcs="Response::to_bytes,Response::from_bytes,read_string_with_len,write_string" bounds="1 column, 2 rows, values of 1 and 0 bytes" stubs="std::fmt::format,String::from_utf8_lossy" assume="rows are rectangular" unwind=4 reason="CBMC needs more than the 28 GB thorough limit (28 GB and rising after 300 s, run alone); Rows round trips without data rows, rows_encode_layout[1col,1row | 2cols,1row] and decode_total[Response/Rows/*] stay"
 #[kani::proof]
 #[kani::unwind(4)]
 #[kani::stub(std::fmt::format, stub_format)]
